@@ -66,7 +66,7 @@ RULE = ("cases = (rule set, term): rule sets of 1-5 rules (12 hand-written + see
         "symbol changed) of a rule's lhs; non-trivial = some rule matches or is yielded; distinct = distinct (rule set, term)")
 ASSUMPTIONS = ["the brute-force matcher and substitution of the harness (structural equality of tuples, identity of the "
                "function objects) define 'matches' and 'instance'; terms are ground (never contain the variable names)"]
-BUDGET = {"quick": 40, "thorough": 540}
+BUDGET = {"quick": 60, "thorough": 540}
 FLOORS = {
     # measured on the unchanged tree (quick, seed 0): 380 980 cases, 57 711 distinct non-trivial, matches_expected 78 504,
     # sound_yields 77 878, repeated_variable_matches 7 721, several-matching 9 056, fixed-arity matching terms 32 024
@@ -89,7 +89,7 @@ FLOORS = {
 }
 EXHAUSTIVE_SPACE = {
     "quick": "all 4683 terms of depth <= 2 over {f,g,h} x {1,2,'c'} with arity 1-2, each against every rule set of the fixed "
-             "list (12 hand-written + 48 seeded)",
+             "list (12 hand-written + 36 seeded)",
     "thorough": "all 4683 terms of depth <= 2 over {f,g,h} x {1,2,'c'} (arity 1-2) against 12 hand-written + 108 seeded rule "
                 "sets; all 357 294 terms of depth <= 3 over {f,g} x {1,2} (arity 1-2) against 8 rule sets over that alphabet "
                 "(4 hand-written + 4 seeded)",
@@ -347,7 +347,7 @@ def _terms(reduced):
     return _TERMS[reduced]
 
 
-NSEEDED_Q, NSEEDED_T, NRED_T = 48, 108, 8
+NSEEDED_Q, NSEEDED_T, NRED_T = 36, 108, 8
 N2 = 3 + 3 * (39 + 39 * 39)          # 4683
 N2R = 2 + 2 * (14 + 14 * 14)         # 422
 N3R = 2 + 2 * (N2R + N2R * N2R)      # 357 294
@@ -427,7 +427,7 @@ def cases(tier, seed):
         for rs in range(NRED_T):
             for t in range(N3R):
                 yield {"space": "exhaustive", "rs": rs, "t3": t}
-    k = 100000 if not thorough else 1200000
+    k = 70000 if not thorough else 1200000
     for _ in range(k):
         # seeded rule sets beyond the fixed list as well
         rs = rng.randrange(nfixed) if rng.random() < 0.4 else rng.randrange(nfixed, 10 ** 6)
